@@ -1,33 +1,53 @@
 #!/usr/bin/env python3
-"""Re-runs every kept seeded change against all 20 quick checks (patch applied to
-/repo, then undone) and refreshes meta.json: `detected_by` is what reports it now,
-`detected_by_initially` what reported it when it was first filed."""
-import glob, json, os, subprocess, sys
+"""Re-runs every kept seeded change against all 20 quick checks and refreshes meta.json: `detected_by` is what
+reports it now, `detected_by_initially` what reported it when it was first filed. Each worker applies the patches to
+its own scratch worktree of /repo HEAD (removed at the end), so /repo itself is not touched."""
+import glob, json, os, shutil, subprocess, sys
+from concurrent.futures import ThreadPoolExecutor
 REPO, VERIF = "/repo", "/verif"
+WORKERS = 5
 def run(cmd):
     p = subprocess.run(cmd, capture_output=True, text=True)
     return p.returncode, p.stdout + p.stderr
-rc, out = run(["git", "-C", REPO, "status", "--porcelain"])
-assert out.strip() == "", "/repo not clean"
 only = sys.argv[1:]
-for mf in sorted(glob.glob(os.path.join(VERIF, "seeded", "*", "meta.json"))):
-    d = os.path.dirname(mf)
-    if only and os.path.basename(d) not in only:
-        continue
-    meta = json.load(open(mf))
-    meta.setdefault("detected_by_initially", meta.get("detected_by", []))
-    rc, out = run(["git", "-C", REPO, "apply", "--whitespace=nowarn", os.path.join(d, "patch.diff")])
-    if rc != 0:
-        print(os.path.basename(d), "patch does not apply"); continue
-    det = {}
+metas = [mf for mf in sorted(glob.glob(os.path.join(VERIF, "seeded", "*", "meta.json")))
+         if not only or os.path.basename(os.path.dirname(mf)) in only]
+def worker(k):
+    tree = "/tmp/recheck_wt_%d" % k
+    run(["git", "-C", REPO, "worktree", "remove", "--force", tree])
+    rc, out = run(["git", "-C", REPO, "worktree", "add", "-q", "--detach", tree, "HEAD"])
+    assert rc == 0, out
+    lines = []
     try:
-        for i in range(1, 21):
-            pid = "C%02d" % i
-            rc, out = run([os.path.join(VERIF, "bin", "verifcheck"), "-repo", REPO, "-verif", VERIF, "-prop", pid, "-no-evidence"])
+        for mf in metas[k::WORKERS]:
+            d = os.path.dirname(mf)
+            meta = json.load(open(mf))
+            meta.setdefault("detected_by_initially", meta.get("detected_by", []))
+            rc, out = run(["git", "-C", tree, "apply", "--whitespace=nowarn", os.path.join(d, "patch.diff")])
             if rc != 0:
-                det[pid] = [l.strip() for l in out.splitlines() if l.startswith("  ")][:4]
+                lines.append(os.path.basename(d) + " patch does not apply"); continue
+            det = {}
+            try:
+                for i in range(1, 21):
+                    pid = "C%02d" % i
+                    rc, out = run([os.path.join(VERIF, "bin", "verifcheck"), "-repo", tree, "-verif", VERIF, "-prop", pid, "-no-evidence"])
+                    if rc != 0:
+                        det[pid] = [l.strip() for l in out.splitlines() if l.startswith("  ")][:4]
+            finally:
+                run(["git", "-C", tree, "checkout", "--", "."]); run(["git", "-C", tree, "clean", "-fdq"])
+            meta["detected_by"], meta["reports"] = sorted(det), det
+            json.dump(meta, open(mf, "w"), indent=1)
+            lines.append("%s -> %s" % (os.path.basename(d), sorted(det)))
     finally:
-        run(["git", "-C", REPO, "checkout", "--", "."]); run(["git", "-C", REPO, "clean", "-fdq"])
-    meta["detected_by"], meta["reports"] = sorted(det), det
-    json.dump(meta, open(mf, "w"), indent=1)
-    print(os.path.basename(d), "->", sorted(det))
+        run(["git", "-C", REPO, "worktree", "remove", "--force", tree]); shutil.rmtree(tree, ignore_errors=True)
+    return lines
+with ThreadPoolExecutor(WORKERS) as ex:
+    for lines in ex.map(worker, range(WORKERS)):
+        for l in lines:
+            print(l)
+missed = []
+for mf in metas:
+    m = json.load(open(mf))
+    if m.get("property") not in m.get("detected_by", []):
+        missed.append(os.path.basename(os.path.dirname(mf)))
+print("not reported by their own property:", missed)
